@@ -179,7 +179,7 @@ theorem writeDefineHunk_eq (file : List Line) (sym : Bytes) (ls : List PatchLine
   | none => rfl
   | some r => obtain ⟨w, cur, st⟩ := r; rfl
 
-/-- preprocessor state that corresponds to the `groupedGo` state -/
+/-- preprocessor state that corresponds to the writer state (numbered 0..4, see `stOf`) when `sym` is defined = `d` -/
 def cs (d : Bool) : Nat → CppState
   | 0 => .outside
   | 1 => .inside (!d) false
@@ -187,20 +187,26 @@ def cs (d : Bool) : Nat → CppState
   | 3 => .inside d true
   | _ => .inside (!d) true
 
-/-- writer state that corresponds to the `groupedGo` state -/
+/-- the writer states, numbered: 0 outside, 1 in `#ifndef` (old lines), 2 in `#ifdef` (new lines),
+    3 in the `#else` of `#ifndef` (new lines), 4 in the `#else` of `#ifdef` (old lines) -/
 def stOf : Nat → DefState
   | 0 => .outside
   | 1 => .inIfndef
   | 2 => .inIfdef
-  | _ => .inElse
+  | 3 => .inElseOfIfndef
+  | _ => .inElseOfIfdef
 
 def plusNext : Nat → Nat
-  | 0 => 2 | 1 => 3 | 2 => 2 | _ => 3
+  | 0 => 2 | 1 => 3 | 2 => 2 | 3 => 3 | _ => 2
 def minusNext : Nat → Nat
-  | 0 => 1 | 1 => 1 | 2 => 4 | _ => 4
+  | 0 => 1 | 1 => 1 | 2 => 4 | 3 => 1 | _ => 4
 
 theorem line_directive_out (w : DefW) (t : Bytes) (nl : NewLine) (o : Out) (h : w.lastUnterm = false) :
     ((w.directive t nl).line o).out = w.out ++ [.directive ⟨t, nl⟩, o] := by
+  simp [DefW.line, DefW.directive, h]
+
+theorem line_directive2_out (w : DefW) (t t' : Bytes) (nl nl' : NewLine) (o : Out) (h : w.lastUnterm = false) :
+    (((w.directive t nl).directive t' nl').line o).out = w.out ++ [.directive ⟨t, nl⟩, .directive ⟨t', nl'⟩, o] := by
   simp [DefW.line, DefW.directive, h]
 
 theorem PLUS_ne_SP : (PLUS == SP) = false := by decide
@@ -208,6 +214,9 @@ theorem MINUS_ne_SP : (MINUS == SP) = false := by decide
 theorem MINUS_ne_PLUS' : (MINUS == PLUS) = false := by decide
 theorem PLUS_ne_MINUS_p : PLUS ≠ MINUS := by decide
 
+/-- the invariant of `write_define_hunk`: from writer state `g`, with the preprocessor in the corresponding state
+    `cs d g`, the rest of the hunk (plus the closing `#endif`) evaluates to the rest of the new side when `sym` is
+    defined and to the rest of the old side when it is not. No assumption on the order of '-' and '+' lines. -/
 theorem defineLoop_seg (file : List Line) (sym : Bytes) (ls : List PatchLine) :
     ∀ (cur : Nat) (w : DefW) (g : Nat), g ≤ 4 →
     (∀ pl ∈ ls, pl.op = SP ∨ pl.op = PLUS ∨ pl.op = MINUS) →
@@ -215,13 +224,12 @@ theorem defineLoop_seg (file : List Line) (sym : Bytes) (ls : List PatchLine) :
     (∀ pl ∈ ls, notDirective sym pl.line) →
     (file.drop cur).take (oldOf ls).length = oldOf ls →
     w.lastUnterm = false →
-    groupedGo g ls = true →
     ∃ outs, (defineLoop file sym ls cur (stOf g) w).map finishDef = some (w.out ++ outs, cur + (oldOf ls).length) ∧
       ∀ d tail r, cppGo sym d .outside tail = some r →
         cppGo sym d (cs d g) (outs.map Out.line ++ tail) = some ((if d then newOf ls else oldOf ls) ++ r) := by
   induction ls with
   | nil =>
-    intro cur w g hg _ _ _ _ hw _
+    intro cur w g hg _ _ _ _ hw
     rcases g with _|_|_|_|_|g
     · exact ⟨[], by simp [defineLoop, finishDef, stOf, oldOf], by intro d tail r h; simpa [cs, oldOf, newOf] using h⟩
     all_goals first
@@ -229,7 +237,7 @@ theorem defineLoop_seg (file : List Line) (sym : Bytes) (ls : List PatchLine) :
       | exact ⟨[.directive ⟨dEndif, w.lastTerm⟩], by simp [defineLoop, finishDef, stOf, oldOf, directive_out, hw],
           by intro d tail r h; simpa [cs, oldOf, newOf, Out.line, cppGo_endif] using h⟩
   | cons pl rest ih =>
-    intro cur w g hg hops hT hD hfile hw hgr
+    intro cur w g hg hops hT hD hfile hw
     have hT' : ∀ pl ∈ rest, pl.line.newline ≠ .none := fun q hq => hT q (List.mem_cons_of_mem _ hq)
     have hD' : ∀ pl ∈ rest, notDirective sym pl.line := fun q hq => hD q (List.mem_cons_of_mem _ hq)
     have hops' : ∀ pl ∈ rest, pl.op = SP ∨ pl.op = PLUS ∨ pl.op = MINUS := fun q hq => hops q (List.mem_cons_of_mem _ hq)
@@ -240,11 +248,9 @@ theorem defineLoop_seg (file : List Line) (sym : Bytes) (ls : List PatchLine) :
       rw [oldOf_cons_sp rest hop] at hfile ⊢
       rw [newOf_cons_sp rest hop]
       obtain ⟨hl, hfile'⟩ := take_drop_cons file cur _ _ _ hfile
-      have hgr' : groupedGo 0 rest = true := by
-        rw [groupedGo.eq_def] at hgr; simpa [hop] using hgr
       obtain ⟨outs, h1, h2⟩ := ih (cur + 1)
         ((if stOf g ≠ .outside then w.directive dEndif (terminatorOf pl.line) else w).line (.fromFile cur pl.line))
-        0 (by omega) hops' hT' hD' hfile' (line_lastUnterm _ _ hTp) hgr'
+        0 (by omega) hops' hT' hD' hfile' (line_lastUnterm _ _ hTp)
       have hstep : defineLoop file sym (pl :: rest) cur (stOf g) w = defineLoop file sym rest (cur + 1) .outside
           ((if stOf g ≠ .outside then w.directive dEndif (terminatorOf pl.line) else w).line (.fromFile cur pl.line)) := by
         rw [defineLoop.eq_def]; simp [hop, hl]
@@ -262,73 +268,88 @@ theorem defineLoop_seg (file : List Line) (sym : Bytes) (ls : List PatchLine) :
     · -- added line
       rw [oldOf_cons_plus rest hop] at hfile ⊢
       rw [newOf_cons_plus rest hop]
-      have hgr' : g ≠ 4 ∧ groupedGo (plusNext g) rest = true := by
-        rw [groupedGo.eq_def] at hgr
-        rcases g with _|_|_|_|_|g <;> first | omega | simp [hop, plusNext, PLUS_ne_SP, PLUS_ne_MINUS_p] at hgr ⊢ <;> exact hgr
-      obtain ⟨hg4, hgr'⟩ := hgr'
       obtain ⟨outs, h1, h2⟩ := ih cur
         ((if g = 0 then w.directive (dIfdef sym) (terminatorOf pl.line)
-          else if g = 1 then w.directive dElse (terminatorOf pl.line) else w).line (.fromPatch pl.line))
-        (plusNext g) (by unfold plusNext; split <;> omega) hops' hT' hD' hfile (line_lastUnterm _ _ hTp) hgr'
+          else if g = 1 then w.directive dElse (terminatorOf pl.line)
+          else if g = 4 then (w.directive dEndif (terminatorOf pl.line)).directive (dIfdef sym) (terminatorOf pl.line)
+          else w).line (.fromPatch pl.line))
+        (plusNext g) (by unfold plusNext; split <;> omega) hops' hT' hD' hfile (line_lastUnterm _ _ hTp)
       have hstep : defineLoop file sym (pl :: rest) cur (stOf g) w = defineLoop file sym rest cur (stOf (plusNext g))
           ((if g = 0 then w.directive (dIfdef sym) (terminatorOf pl.line)
-          else if g = 1 then w.directive dElse (terminatorOf pl.line) else w).line (.fromPatch pl.line)) := by
+          else if g = 1 then w.directive dElse (terminatorOf pl.line)
+          else if g = 4 then (w.directive dEndif (terminatorOf pl.line)).directive (dIfdef sym) (terminatorOf pl.line)
+          else w).line (.fromPatch pl.line)) := by
         rw [defineLoop.eq_def]
         rcases g with _|_|_|_|_|g <;> first | omega | simp [hop, stOf, plusNext, PLUS_ne_SP]
       refine ⟨(if g = 0 then [.directive ⟨dIfdef sym, terminatorOf pl.line⟩]
-          else if g = 1 then [.directive ⟨dElse, terminatorOf pl.line⟩] else []) ++
+          else if g = 1 then [.directive ⟨dElse, terminatorOf pl.line⟩]
+          else if g = 4 then [.directive ⟨dEndif, terminatorOf pl.line⟩, .directive ⟨dIfdef sym, terminatorOf pl.line⟩]
+          else []) ++
           .fromPatch pl.line :: outs, ?_, ?_⟩
       · rw [hstep, h1]
-        rcases g with _|_|_|_|_|g <;> first | omega | simp [line_out, line_directive_out, hw]
+        rcases g with _|_|_|_|_|g <;> first | omega | simp [line_out, line_directive_out, line_directive2_out, hw]
       · intro d tail r ht
         have := h2 d tail r ht
         rcases g with _|_|_|_|_|g <;> first | omega |
           (cases d <;> simp [cs, plusNext] at this <;> simp [cs, Out.line, cppGo_plain_active _ _ _ _ _ hDp, cppGo_plain_inactive _ _ _ _ _ hDp,
-             cppGo_ifdef, cppGo_else, this])
+             cppGo_ifdef, cppGo_else, cppGo_endif, this])
     · -- deleted line
       rw [oldOf_cons_minus rest hop] at hfile ⊢
       rw [newOf_cons_minus rest hop]
       obtain ⟨hl, hfile'⟩ := take_drop_cons file cur _ _ _ hfile
-      have hgr' : g ≠ 3 ∧ groupedGo (minusNext g) rest = true := by
-        rw [groupedGo.eq_def] at hgr
-        rcases g with _|_|_|_|_|g <;> first | omega | simp [hop, minusNext, MINUS_ne_SP] at hgr ⊢ <;> exact hgr
-      obtain ⟨hg3, hgr'⟩ := hgr'
       obtain ⟨outs, h1, h2⟩ := ih (cur + 1)
         ((if g = 0 then w.directive (dIfndef sym) (terminatorOf pl.line)
-          else if g = 2 then w.directive dElse (terminatorOf pl.line) else w).line (.fromFile cur pl.line))
-        (minusNext g) (by unfold minusNext; split <;> omega) hops' hT' hD' hfile' (line_lastUnterm _ _ hTp) hgr'
+          else if g = 2 then w.directive dElse (terminatorOf pl.line)
+          else if g = 3 then (w.directive dEndif (terminatorOf pl.line)).directive (dIfndef sym) (terminatorOf pl.line)
+          else w).line (.fromFile cur pl.line))
+        (minusNext g) (by unfold minusNext; split <;> omega) hops' hT' hD' hfile' (line_lastUnterm _ _ hTp)
       have hstep : defineLoop file sym (pl :: rest) cur (stOf g) w = defineLoop file sym rest (cur + 1) (stOf (minusNext g))
           ((if g = 0 then w.directive (dIfndef sym) (terminatorOf pl.line)
-          else if g = 2 then w.directive dElse (terminatorOf pl.line) else w).line (.fromFile cur pl.line)) := by
+          else if g = 2 then w.directive dElse (terminatorOf pl.line)
+          else if g = 3 then (w.directive dEndif (terminatorOf pl.line)).directive (dIfndef sym) (terminatorOf pl.line)
+          else w).line (.fromFile cur pl.line)) := by
         rw [defineLoop.eq_def]
         rcases g with _|_|_|_|_|g <;> first | omega | simp [hop, hl, stOf, minusNext, MINUS_ne_SP, MINUS_ne_PLUS']
       refine ⟨(if g = 0 then [.directive ⟨dIfndef sym, terminatorOf pl.line⟩]
-          else if g = 2 then [.directive ⟨dElse, terminatorOf pl.line⟩] else []) ++
+          else if g = 2 then [.directive ⟨dElse, terminatorOf pl.line⟩]
+          else if g = 3 then [.directive ⟨dEndif, terminatorOf pl.line⟩, .directive ⟨dIfndef sym, terminatorOf pl.line⟩]
+          else []) ++
           .fromFile cur pl.line :: outs, ?_, ?_⟩
       · rw [hstep, h1]
-        rcases g with _|_|_|_|_|g <;> first | omega | (simp [line_out, line_directive_out, hw]; omega)
+        rcases g with _|_|_|_|_|g <;> first | omega | (simp [line_out, line_directive_out, line_directive2_out, hw]; omega)
       · intro d tail r ht
         have := h2 d tail r ht
         rcases g with _|_|_|_|_|g <;> first | omega |
           (cases d <;> simp [cs, minusNext] at this <;> simp [cs, Out.line, cppGo_plain_active _ _ _ _ _ hDp, cppGo_plain_inactive _ _ _ _ _ hDp,
-             cppGo_ifndef, cppGo_else, this])
+             cppGo_ifndef, cppGo_else, cppGo_endif, this])
 
-
-theorem writeDefineHunk_seg (file : List Line) (sym : Bytes) (ls : List PatchLine) (p : Nat)
+/-- `write_define_hunk` on a hunk whose old side is in the file at `p`: the emitted lines form a balanced segment
+    that evaluates to the new side with `sym` defined and to the old side without — for ANY order of '-'/'+' lines. -/
+theorem writeDefineHunk_seg' (file : List Line) (sym : Bytes) (ls : List PatchLine) (p : Nat)
     (hops : ∀ pl ∈ ls, pl.op = SP ∨ pl.op = PLUS ∨ pl.op = MINUS)
     (hT : ∀ pl ∈ ls, pl.line.newline ≠ .none)
     (hD : ∀ pl ∈ ls, notDirective sym pl.line)
-    (hfile : (file.drop p).take (oldOf ls).length = oldOf ls)
-    (hgr : grouped ls = true) :
+    (hfile : (file.drop p).take (oldOf ls).length = oldOf ls) :
     ∃ outs, writeDefineHunk file sym ls p = some (outs, p + (oldOf ls).length) ∧
       ∀ d, Seg sym d (outs.map Out.line) (if d then newOf ls else oldOf ls) := by
-  obtain ⟨outs, h1, h2⟩ := defineLoop_seg file sym ls p {} 0 (by omega) hops hT hD hfile rfl hgr
+  obtain ⟨outs, h1, h2⟩ := defineLoop_seg file sym ls p {} 0 (by omega) hops hT hD hfile rfl
   refine ⟨outs, ?_, ?_⟩
   · rw [writeDefineHunk_eq]
     rw [show stOf 0 = DefState.outside from rfl] at h1
     rw [h1]; simp
   · intro d tail r ht
     exact h2 d tail r ht
+
+/-- the old statement (with the now superfluous `grouped` hypothesis), kept for compatibility -/
+theorem writeDefineHunk_seg (file : List Line) (sym : Bytes) (ls : List PatchLine) (p : Nat)
+    (hops : ∀ pl ∈ ls, pl.op = SP ∨ pl.op = PLUS ∨ pl.op = MINUS)
+    (hT : ∀ pl ∈ ls, pl.line.newline ≠ .none)
+    (hD : ∀ pl ∈ ls, notDirective sym pl.line)
+    (hfile : (file.drop p).take (oldOf ls).length = oldOf ls)
+    (_hgr : grouped ls = true) :
+    ∃ outs, writeDefineHunk file sym ls p = some (outs, p + (oldOf ls).length) ∧
+      ∀ d, Seg sym d (outs.map Out.line) (if d then newOf ls else oldOf ls) :=
+  writeDefineHunk_seg' file sym ls p hops hT hD hfile
 
 /-- one iteration of the hunk loop when the hunk was found at `p` with fuzz 0 and offset 0 and `-D sym` is given -/
 theorem finishHunk_define (file : List Line) (o : ApplyOpts) (pt : Patch) (s : AState) (num : Nat) (h : Hunk)
